@@ -51,11 +51,19 @@ ATTACH_Q = R("attach_q", "attach_q.cfg", expect_ops=["add_attachment", "add_bad_
 SALT_Q = R("salt_q", "salt_q.cfg", rounds=3, expect_ops=["add_salt", "add_salt_with_len", "add_salt_in_range", "add_assertion_salted", "add_assertion_envelope_salted", "obs_lookup"],
            expect_out=["add_salt_with_len:err", "add_salt_in_range:err"])
 
+TRACE_WALK = dict(name="trace_walk", kind="trace", driver="tracecheck", gen_args=["--traces", 24, "--len", 150],
+                  expect_ops=["add_assertion_envelope", "elide_set", "encrypt_subject", "decrypt_subject", "compress", "uncompress", "encode_decode", "remove_present", "replace_subject", "add_salt"])
+TRACE_WALK_T = dict(TRACE_WALK, name="trace_walk_t", gen_args=["--traces", 120, "--len", 300, "--max-elements", 60])
+TRACE_SALT = dict(name="trace_salt", kind="trace", driver="tracecheck", gen_args=["--mode", "salt", "--reps", 16], expect_ops=["add_salt"])
+TRACE_SALT_T = dict(TRACE_SALT, name="trace_salt_t", gen_args=["--mode", "salt", "--reps", 128])
+
+TOTAL_Q = R("total_q", "total_q.cfg", expect_ops=["replace_subject", "compress_subject", "add_assertion_envelope", "obs_lookup", "add_salt"])
+
 PLAN = {
     "C01": dict(
         rule="every transition TLC explores in the bounded machine (all call sequences up to the depth bound over the listed action families, 2 registers, atoms a1,a2 + known value 1, plus every clear shape of <= 5 elements as input to the obscuring calls) is executed against the real library in several concretisation rounds (atoms -> typed values of every leaf CBOR type); the digest of the result and of every element of it must equal SHA-256 evaluated from the specification's digest term. non-trivial = distinct (call, expected result) pairs whose result has >= 2 elements or is an error",
-        quick=[CORE_ALL3, OBS_Q],
-        thorough=[CORE_ALL3, CORE_T, OBS_Q, OBS_Q2],
+        quick=[CORE_ALL3, OBS_Q, TRACE_WALK],
+        thorough=[CORE_ALL3, CORE_T, OBS_Q, OBS_Q2, TRACE_WALK_T],
     ),
     "C02": dict(
         rule="every shape of <= 5 elements x every target subset (<= 3 digests incl. an absent one) x both modes x {elide, encrypt, compress} and the whole-envelope calls, then a second obscuring call on the result; digests at every surviving position compared with the specification's terms",
@@ -67,8 +75,8 @@ PLAN = {
     ),
     "C04": dict(
         rule="all mutating action families from the empty register file, depth <= 3 (all families) and <= 4 (construct/assertions/wrap); serialized bytes of every result must equal the evaluated wire term whose node arrays are sorted by the real digest bytes",
-        quick=[CORE_ALL3, TWIN_Q],
-        thorough=[CORE_ALL3, CORE_T, TWIN_Q],
+        quick=[CORE_ALL3, TWIN_Q, TRACE_WALK],
+        thorough=[CORE_ALL3, CORE_T, TWIN_Q, TRACE_WALK_T],
     ),
     "C05": dict(
         rule="encode->decode (bytes, CBOR value and UR string variants) of every envelope reachable in the bounded machine; decoded projection identical and re-encoding byte-identical",
@@ -99,7 +107,8 @@ PLAN = {
     ),
     "C16": dict(
         rule="every call of every configuration runs under catch_unwind; a panic is never an allowed outcome. This check runs the query / lookup / extraction family and the transform / obscure families on every shape, node-subject nodes, decorated (assertion-on-assertion) shapes and their obscured variants",
-        quick=[QUERY_Q, OBS_Q, CORE_ALL3],
+        quick=[QUERY_Q, OBS_Q, TOTAL_Q, DECODE_Q],
+        thorough=[QUERY_Q, OBS_Q, TOTAL_Q, DECODE_Q, CORE_ALL3, SIG_Q, RECIPIENT_Q, SSKR_MIX_Q, ATTACH_Q, SALT_Q],
     ),
     "C06": dict(
         rule="wire terms: the encoding of every shape (<= 5 elements, node-subject nodes, decorated assertions, nodes with 2-3 assertions, tagged-known-value leaves) and of its obscured variants, mutated at one position (reorder / duplicate assertion elements, drop all assertions, non-assertion in an assertion slot, unknown tag, leaf<->envelope retag, legacy leaf tag, digest one byte short/long, 0- or 2-entry assertion map, encrypted/compressed without digest or with a surplus element, non-minimal head, indefinite length, float/text/negative/bool in an element position); thorough: two positions. Each evaluated to bytes and given to the real decoder; the specification's decoder says accept (and what) or reject",
@@ -124,7 +133,8 @@ PLAN = {
     ),
     "C17": dict(
         rule="direction A: add_salt / add_salt_with_len(0,7,8,20) / add_salt_in_range / add_assertion(_envelope)_salted on shapes, then a second salting or predicate lookups; the salt leaf must parse as Salt (>= 8 bytes). direction B (trace): see saltsize run",
-        quick=[SALT_Q],
+        quick=[SALT_Q, TRACE_SALT],
+        thorough=[SALT_Q, TRACE_SALT_T, TRACE_WALK_T],
     ),
     "C19": dict(
         rule="bases x multisets of <= 2 attachments (payload = any register, vendors v1,v2, conformsTo absent/c1/c2) and malformed attachment assertions of 6 kinds, types over known values and strings; all 12 (vendor, conformsTo) filter combinations in list and single-result form, payload/vendor/conformsTo of every returned attachment, types()/has_type/check_type/get_type",
